@@ -58,13 +58,27 @@ CHECKS = [
      "C04_ci_nested / C04_ci_wrappers prove centre, half-width z*sqrt(p(1-p)/n), NaN-iff, mirroring and nesting of the "
      "normal-approximation intervals for any sqrt and z oracles. Tied to /repo by running metrics.* and "
      "ConfusionMatrix(binary=True) (+aliases) on stacked integer/float matrices incl. zero rows/columns and by evaluating "
-     "the Lean spec predicates on the observed values.",
-     BASE_NOTE + "scipy.stats.norm.isf and np.sqrt are oracles (isf antitone is a hypothesis of nesting); the harness "
+     "the Lean spec predicates on the observed values. DEFINITIONS regenerated from /repo's source on every run "
+     "(harness/metricdefs.py: Python ast -> expression IR of every function of metrics.py that is a function of one 2x2 matrix, "
+     "the (count, nobs) arguments the *_ci wrappers hand to binomial_ci, and the ConfusionMatrix methods of cm.py through the "
+     "cm_class_metric decorator): SA/Model/MetricExpr.lean gives the IR a value semantics (rational | NaN | outside-the-fragment) "
+     "and a normaliser into num/den with integer linear forms in (tp, fn, fp, tn), NaN iff den = 0; C04Defs proves "
+     "normalize_sound, model_table_sound (the table of normal forms written for the model equals SA.CMq.* on every matrix), "
+     "nf_eq_model, checkAll_covered_sound / checkAll_mismatch_sound; the generated theorem `generated_c04_defs_ok` is "
+     "kernel-evaluated on the translation of the CURRENT source each run (72/72 names covered on the clean tree), and a "
+     "definite mismatch (the translated definition and the model differ on a named witness matrix) is a broken proof "
+     "obligation naming function, both normal forms, the matrix and the two values; the case generator contains matrices of "
+     "distinct primes with random zero cells, so the search that follows finds a concrete failing input.",
+     BASE_NOTE + "For the regenerated definitions the translator (its reading of NumPy indexing / np.sum axes / np.divide(where=) "
+     "/ np.where, symbolic inlining of helper functions, the pass-through check of the decorator) is trusted instead of the "
+     "hand-written model; it has values only (no dtypes, warnings, leading-axis bookkeeping, result types) and says `unknown` "
+     "(evidence only, never an alarm) for anything else. scipy.stats.norm.isf and np.sqrt are oracles (isf antitone is a hypothesis of nesting); the harness "
      "checks that the implementation asks isf for alpha/2; float sums/quotients compared with tolerance 1e-9 / 1e-12; float "
      "rounding of the interval limits is bounded by ci_fl_error under the standard model of floating-point arithmetic (np.sqrt an "
      "oracle rounded once; ciEps, evaluated by driver op cibound; the run reports DISAGREE float-bound above 4 x the bound, "
      "observed maximum 0.89 x).",
-     "Lean 4 proof about a hand-written model + differential correspondence check", "DESIGN.md §5 C04"),
+     "Lean 4 proof about a hand-written model + differential correspondence check + definitions regenerated from the source "
+     "by a translator and kernel-checked each run", "DESIGN.md §5 C04"),
  chk("C13",
      "The Lean model of utils.bootstrap_ci IS the documented formula (C13_quantile_levels, C13_bc_levels, C13_bca_levels: "
      "NumPy's linear nanquantile at alpha/2, 1-alpha/2; BC shift 2*z0; BCa acceleration term). Theorems derive, for ALL "
